@@ -12,7 +12,10 @@ PROP_FILE = "Properties/C06.v"
 TRUSTED = [
     "translator/c06.py (Processor.__deepcopy__ / ModelGroup.__deepcopy__ field modes, copy-before-set shape of "
     "create_new_processor, Processor.replace, update_processor, build_processors, ModelFittingDataTree.__init__, "
-    "which processor the run sites hand to run_pipeline, absence of other custom copy hooks; fails closed)",
+    "which processor the run sites hand to run_pipeline, absence of other custom copy hooks; for the copy sites and the "
+    "two observation run sites whether anything derived from the caller's processor is written to (taint analysis over "
+    "attribute/item stores, del, setattr, mutating method calls, run_pipeline on the caller's object) and whether every "
+    "value handed to .set is deep-copied by the site; fails closed)",
     "correspondence harness: harness/props/c06.py generators, harness/drivers/c06.py (canonical numbering of real "
     "object graphs, value snapshots, standalone oracle built from the JSON spec without Processor.set)",
     "modelled, not verified: CPython copy.deepcopy of plain objects = relocation of the reachable sub-graph (checked "
@@ -43,11 +46,15 @@ def pipelines():
     mut = dict(func="verif_probes.mutates_args", name="mut", arguments=dict(items=[1, 2, 3], scalar=0))
     fl = dict(func="verif_probes.fail", name="fl", arguments=dict(when_arg=5.0, arg=0.0))
     wr = dict(func="verif_probes.write", name="wr", arguments=dict(bucket="photon", value=4.0))
+    mem = dict(func="verif_probes_c06.memory", name="mem", arguments=dict(key="trap", inc=1.0))
     return {
         "a2p_st": ({G: [a2p, st]}, [K + "a2p.arguments.a", K + "a2p.arguments.b", K + "st.arguments.inc"], None, False),
         "mut_st": ({G: [mut, st]}, [K + "mut.arguments.scalar", K + "st.arguments.inc"], K + "mut.arguments.items", False),
         "st_mut": ({G: [st, mut]}, [K + "mut.arguments.scalar", K + "st.arguments.inc"], None, False),
         "mut_fl_st": ({G: [mut, fl, st]}, [K + "mut.arguments.scalar", K + "fl.arguments.arg"], None, True),
+        "mem_mut": ({G: [mut, mem]}, [K + "mem.arguments.inc", K + "mut.arguments.scalar"], None, False),
+        "st_mem_fl": ({G: [st, mem, fl]}, [K + "mem.arguments.inc", K + "st.arguments.inc", K + "fl.arguments.arg"],
+                      None, True),
         "two_groups": ({"photon_collection": [wr], G: [mut, st], "charge_measurement": [
             dict(func="verif_probes.stateful", name="st2", arguments=dict(key="_verif_memory2", inc=2.0))]},
             [K + "mut.arguments.scalar", K + "st.arguments.inc", "pipeline.charge_measurement.st2.arguments.inc"],
@@ -67,7 +74,24 @@ def gen_spec(r, pname=None):
                 readout=dict(times=r.choice([[1.0], [1.0, 2.0], [0.5, 1.0, 3.0]]),
                              non_destructive=r.random() < 0.3),
                 memory=r.choice([None, 3.0, 0.5, 3.0]))
+    # the caller's objects have a HISTORY: entries in the detector's own memory dict, trapped charge in a persistence
+    # object, earlier plain exposures on these very objects (buckets hold arrays, memory and list arguments moved on)
+    if r.random() < 0.6 or "mem" in pname:
+        spec["real_memory"] = r.choice([{"trap": 4.0}, {"trap": 0.5}, {"trap": 2.0, "other": 1.0}])
+    if r.random() < 0.4 or ("mem" in pname and r.random() < 0.6):
+        spec["persistence"] = r.choice([2.0, 0.25, 8.0])
+    spec["pre_exposure"] = r.choice([0, 0, 1, 1, 2])
+    if r.random() < 0.4:
+        # a DISABLED model with a mutable argument: never run, but part of the user's pipeline (its settings must be
+        # copied, not shared: a later run or the user may enable it)
+        spec["pipeline"][G].append(dict(func="verif_probes.record", name="off", enabled=False,
+                                        arguments=dict(tag="off", extra=[1, 2])))
     return pname, spec, keys, lkey, has_fail
+
+
+REJECTED = {"detector.characteristics.quantum_efficiency": ([0.5, 0.25, 0.75, 1.0], [1.5, -0.5]),
+            "detector.environment.temperature": ([100.0, 250.0, 300.0], [-5.0, 0.0, 2000.0]),
+            "detector.characteristics.pre_amplification": ([2.0, 4.0, 0.5], [-1.0, 20000.0])}
 
 
 def values_for(r, key, n, has_fail_key=False, with_fail=False):
@@ -92,15 +116,34 @@ def gen_observe(r, k):
         ks = r.sample(keys, min(nk, len(keys)))
         if with_fail and K + "fl.arguments.arg" not in ks:
             ks[0] = K + "fl.arguments.arg"
-        if r.random() < 0.25 and "detector.characteristics.quantum_efficiency" not in ks and len(ks) < 2:
-            ks.append("detector.characteristics.quantum_efficiency")
+        single = mode == "sequential" and dask
+        dkey = None
+        if r.random() < 0.4:
+            dkey = r.choice(sorted(REJECTED))
+            if single:
+                ks = [dkey]
+            elif len(ks) < 2:
+                ks.append(dkey)
+            else:
+                ks[-1] = dkey
+            if with_fail and K + "fl.arguments.arg" not in ks:
+                ks[0] = K + "fl.arguments.arg"
+        # a run whose parameter value is REJECTED by a setter (the copy site itself raises), at any position
+        reject = dkey is not None and dkey in ks and not with_fail and r.random() < 0.45
         params = []
         for key in ks:
             if key.startswith("detector."):
-                params.append(dict(key=key, values=r.sample([0.5, 0.25, 0.75, 1.0], 2)))
+                good, bad = REJECTED[key]
+                vals = r.sample(good, 2)
+                if reject:
+                    vals.insert(r.choice([0, 1, 2]), r.choice(bad))
+                params.append(dict(key=key, values=vals))
             else:
                 params.append(dict(key=key, values=values_for(r, key, r.choice([2, 3]), with_fail=with_fail)))
-        calls.append(dict(parameters=params, mode=mode, with_dask=dask))
+        if not with_fail and not reject and not single and r.random() < 0.06:
+            params.append(dict(key=K + "nomodel.arguments.x", values=[1.0, 2.0]))      # unknown key: refused up front
+        calls.append(dict(parameters=params, mode=mode, with_dask=dask, reject=reject,
+                          scheduler=r.choice(["synchronous", "threads"]) if dask else None))
     # run orders / subsets: repeat the first call with its values reversed or thinned
     if r.random() < 0.5 and calls:
         c0 = copy.deepcopy(calls[0])
@@ -133,6 +176,66 @@ def gen_observe_array(r, k):
     return dict(kind="observe", pipe="arr_st", spec=spec, calls=calls, input_class=cls)
 
 
+CONTAINERS = {
+    # kind -> (default value of `seq` as JSON, spec conversions, values swept for the key)
+    "list": ([1.0, 2.0], {}, [[1.0, 2.0]]),
+    "list2": ([4.0, 0.5, 2.0], {}, [[4.0, 0.5, 2.0], [1.0, 1.0, 8.0]]),
+    "nested": ([[1.0, 2.0], [3.0, 4.0]], {}, [[[1.0, 2.0], [3.0, 4.0]]]),
+    "tuple_of_lists": ([[1.0, 2.0], [3.0, 4.0]], {"tuple_args": [G + ".co.seq"]}, [[[1.0, 2.0], [3.0, 4.0]]]),
+    "ndarray": ([1.0, 2.0], {"ndarray_args": [G + ".co.seq"]}, [[1.0, 2.0]]),
+}
+CONTAINER_CLASS = {"list": "list", "list2": "list", "nested": "nested", "tuple_of_lists": "tuple_of_lists",
+                   "ndarray": "ndarray"}
+
+
+def gen_observe_container(r, k):
+    """A model that modifies its CONTAINER argument in place (plain list, nested lists, lists in a tuple, ndarray; a
+    dict argument that is never swept rides along).  The container-valued key is swept next to a scalar key, so that
+    in sequential mode the runs of the scalar key receive the caller's current container as the key's default."""
+    kind = sorted(CONTAINERS)[k % len(CONTAINERS)]
+    default, conv, swept = CONTAINERS[kind]
+    co = dict(func="verif_probes_c06.mutates_container", name="co",
+              arguments=dict(seq=copy.deepcopy(default), table={"a": 1.0, "b": [2.0, 0.5]}, scalar=0.0))
+    st = dict(func="verif_probes.stateful", name="st", arguments=dict(inc=1.0))
+    spec = dict(det=dict(kind="ccd", rows=1, cols=2), pipeline={G: [co, st]},
+                readout=dict(times=[1.0], non_destructive=False), memory=r.choice([None, 3.0]),
+                pre_exposure=r.choice([0, 0, 1]), **copy.deepcopy(conv))
+    scal = dict(key=K + "co.arguments.scalar", values=r.sample([1.0, 2.0, 4.0, 8.0], r.choice([2, 3])))
+    seqp = dict(key=K + "co.arguments.seq", values=copy.deepcopy(swept))
+    variant = (k // len(CONTAINERS)) % 4
+    cls = "plain"
+    if variant in (0, 1):    # the scalar key's runs receive the caller's container as default; either key order
+        ps = [scal, seqp] if variant == 0 else [seqp, scal]
+        calls = [dict(parameters=ps, mode="sequential", with_dask=False)]
+        if r.random() < 0.5:
+            calls.append(dict(parameters=[scal], mode="product", with_dask=r.random() < 0.5))
+        cls = "container_default_sequential_sweep"
+    elif variant == 2:
+        calls = [dict(parameters=[scal], mode="sequential", with_dask=r.random() < 0.5),
+                 dict(parameters=[scal, seqp], mode="product", with_dask=r.random() < 0.5)]
+    else:
+        calls = [dict(parameters=[seqp], mode="sequential", with_dask=False),
+                 dict(parameters=[scal], mode="product", with_dask=True)]
+    return dict(kind="observe", pipe="co_st", spec=spec, calls=calls, input_class=cls,
+                container=CONTAINER_CLASS[kind])
+
+
+def gen_sitefail(r, k):
+    """A copy site is asked to apply a value that a setter rejects, on caller objects that have a history."""
+    sites = ["create_new_processor", "replace", "build_processors", "update_processor"]
+    site = sites[k % len(sites)]
+    pname, spec, keys, lkey, has_fail = gen_spec(r)
+    spec["pre_exposure"] = r.choice([1, 1, 2, 0])
+    if site == "update_processor":
+        spec["readout"] = dict(times=[1.0], non_destructive=False)
+    dkey = r.choice(sorted(REJECTED))
+    good, bad = REJECTED[dkey]
+    items = [(key, r.choice(DYADIC)) for key in r.sample(keys, min(len(keys), r.choice([0, 1, 2])))]
+    items.insert(r.randrange(len(items) + 1), (dkey, r.choice(bad) if r.random() < 0.8 else r.choice(good)))
+    return dict(kind="sitefail", pipe=pname, spec=spec, site=site, params=dict(items),
+                with_obs=site in ("replace", "create_new_processor") and r.random() < 0.5)
+
+
 def gen_graph(r, k):
     sites = ["deepcopy", "replace", "create_new_processor", "update_processor", "build_processors", "fitting_init"]
     site = sites[k % len(sites)]
@@ -149,12 +252,15 @@ def gen_graph(r, k):
     # a list-valued parameter replaces a list of the same length (same graph shape): no run before it,
     # because mutates_args would have grown the caller's list
     pre_run = r.random() < 0.5 and not (lkey and lkey in params)
+    if lkey and lkey in params:
+        spec["pre_exposure"] = 0
     return dict(kind="graph", pipe=pname, spec=spec, site=site, params=params, with_obs=with_obs,
                 pre_run=pre_run)
 
 
 def gen_fitness(r, k):
-    pname, spec, keys, lkey, has_fail = gen_spec(r, ["a2p_st", "mut_st", "mut_fl_st", "two_groups"][k % 4])
+    pname, spec, keys, lkey, has_fail = gen_spec(r, ["a2p_st", "mut_st", "mut_fl_st", "two_groups", "mem_mut",
+                                                     "st_mem_fl"][k % 6])
     spec["readout"] = dict(times=[1.0], non_destructive=False)
     ks = r.sample(keys, min(r.choice([1, 2]), len(keys)))
     if has_fail and K + "fl.arguments.arg" not in ks:
@@ -163,9 +269,69 @@ def gen_fitness(r, k):
     vecs = [[r.choice([v for v in DYADIC if v != 5.0]) for _ in ks] for _ in range(nv)]
     if has_fail:
         vecs[1][ks.index(K + "fl.arguments.arg")] = 5.0   # a failing candidate in the middle
+    elif r.random() < 0.4:
+        # a candidate whose value a detector setter REJECTS (update_processor itself raises), in the middle
+        dkey = r.choice(sorted(REJECTED))
+        good, bad = REJECTED[dkey]
+        ks.append(dkey)
+        for v in vecs:
+            v.append(r.choice(good))
+        vecs[r.randrange(1, len(vecs))][-1] = r.choice(bad)
     vecs.append(list(vecs[0]))                             # the first candidate again, after the others
+    j = r.randrange(len(vecs))
+    vecs.insert(j, list(vecs[j]))                          # the same candidate twice in a row
     return dict(kind="fitness", pipe=pname, spec=spec, variables=[dict(key=key, lo=0, hi=1000) for key in ks],
                 vectors=vecs, target=r.choice([0.0, 10.0, 2.5]))
+
+
+def gen_calibration(r, k):
+    """A real calibration: pygmo archipelago of 1-3 islands whose candidates are evaluated concurrently (DaskIsland /
+    DaskBFE threads), on caller objects that have a history; optionally several processors per candidate."""
+    pname, spec, keys, lkey, has_fail = gen_spec(r, ["mem_mut", "mut_st", "two_groups", "a2p_st"][k % 4])
+    spec["readout"] = dict(times=r.choice([[1.0], [1.0, 2.0]]), non_destructive=r.random() < 0.3)
+    spec["det"]["kind"] = "ccd"
+    if not spec.get("real_memory"):
+        spec["real_memory"] = {"trap": 4.0}
+    ks = r.sample(keys, min(r.choice([1, 2]), len(keys)))
+    variables = [dict(key=key, lo=0.5, hi=r.choice([8.0, 16.0])) for key in ks]
+    inputs = []
+    rest = [key for key in keys if key not in ks]
+    if rest and r.random() < 0.4:
+        inputs = [dict(key=rest[0], values=r.sample([1.0, 2.0, 4.0], 2))]
+    return dict(kind="calibration", pipe=pname, spec=spec, variables=variables, input_arguments=inputs,
+                islands=[2, 3, 1, 2][k % 4], generations=r.choice([1, 2]), pop=7, evolutions=r.choice([1, 2]),
+                num_best=r.choice([0, 2]), pygmo_seed=r.randrange(1, 1000), target=r.choice([0.0, 20.0]))
+
+
+def gen_fitness_multi(r, k):
+    """Several processors per candidate (input_arguments -> build_processors), optionally a list-valued variable
+    (a slice of the decision vector) handed to a model that modifies its argument in place."""
+    ma = dict(func="verif_probes_c06.mutates_array", name="ma", arguments=dict(arr=[1.0, 2.0], scalar=0.0))
+    st = dict(func="verif_probes.stateful", name="st", arguments=dict(inc=1.0))
+    spec = dict(det=dict(kind="ccd", rows=1, cols=2), pipeline={G: [ma, st]},
+                readout=dict(times=[1.0], non_destructive=False), memory=r.choice([None, 3.0]),
+                pre_exposure=r.choice([0, 0, 1]))
+    if r.random() < 0.5:
+        spec["ndarray_args"] = [G + ".ma.arr"]
+    variant = k % 3
+    nproc = r.choice([2, 3])
+    in_key = r.choice([K + "ma.arguments.scalar", K + "st.arguments.inc"])
+    inputs = [dict(key=in_key, values=r.sample([1.0, 2.0, 4.0, 0.5], nproc))]
+    cls = "plain"
+    if variant == 0:      # list-valued variable + several processors: every processor gets the same slice
+        variables = [dict(key=K + "ma.arguments.arr", lo=0, hi=1000, n=2)]
+        cls = "array_variable_multi_processor"
+    elif variant == 1:    # list-valued variable, one processor
+        variables = [dict(key=K + "ma.arguments.arr", lo=0, hi=1000, n=2)]
+        inputs = []
+    else:                 # scalar variables, several processors
+        other = K + "st.arguments.inc" if in_key.endswith("scalar") else K + "ma.arguments.scalar"
+        variables = [dict(key=other, lo=0, hi=1000)]
+    width = sum(v.get("n") or 1 for v in variables)
+    vecs = [[r.choice([v for v in DYADIC if v != 5.0]) for _ in range(width)] for _ in range(r.choice([2, 3]))]
+    vecs.append(list(vecs[0]))
+    return dict(kind="fitness", pipe="ma_st", spec=spec, variables=variables, input_arguments=inputs, vectors=vecs,
+                target=r.choice([0.0, 2.5]), input_class=cls)
 
 
 # ------------------------------------------------------------------------------------------ Coq emission
@@ -180,7 +346,8 @@ def emit_graph_case(c, o, site_modes) -> str:
     mode = "Deep" if row is None else site_modes.get(row, "Deep")
     heap = core.clist(emit_obj(n) for n in o["orig"])
     obs = core.clist(emit_obj(n) for n in o["copy"])
-    return (f"mkGraphCase {heap} {mode} {obs} {len(o['shared_mem'])} {len(o['orig_changed'])}")
+    return (f"mkGraphCase {heap} {mode} {obs} {len(o['shared_mem'])} {len(o['orig_changed'])} "
+            f"{len(o.get('lost') or [])}")
 
 
 def zl(xs) -> str:
@@ -212,6 +379,15 @@ def beh_of_fitness(o):
     return before, afters, runs, 0
 
 
+def beh_of_calibration(o):
+    runs = []
+    if o["raised"] is not None:
+        runs.append((None, []))          # a calibration over accepted bounds must not raise
+    for e in o["evals"] + o["champions"]:
+        runs.append((e["obs"], e["std"]))
+    return o["before"], [o["after"]], runs, 0
+
+
 def emit_beh_case(before, afters, runs) -> str:
     def oz(x):
         return "None" if x is None else f"(Some {zl(x)})"
@@ -219,7 +395,7 @@ def emit_beh_case(before, afters, runs) -> str:
             f"{core.clist(f'({oz(a)}, {oz(b)})' for a, b in runs)}")
 
 
-HEAD = ("From Coq Require Import String ZArith List.\nFrom PyxelV Require Import Model.Heap.\n"
+HEAD = ("From Coq Require Import String ZArith List.\nFrom PyxelV Require Import Model.Heap Model.HeapExc.\n"
         "From PyxelGen Require Import Gen_C06.\nImport ListNotations.\nOpen Scope string_scope.\n")
 
 
@@ -227,6 +403,18 @@ def graph_file(items) -> str:
     body = ";\n  ".join(items)
     return (HEAD + f"Definition cases : list graph_case := [\n  {body}\n].\n"
             "Eval vm_compute in mismatches src_policy cases.\nEval vm_compute in violations cases.\n")
+
+
+def emit_fail_case(o) -> str:
+    return (f"mkFailCase {core.cbool(o['raised'] is not None)} {len(o['changed'])} "
+            f"{core.cbool(o['std_raised'] is not None)}")
+
+
+def fail_file(items) -> str:
+    body = ";\n  ".join(items)
+    return (HEAD + f"Definition cases : list fail_case := [\n  {body}\n].\n"
+            "Eval vm_compute in fail_violations cases.\n"
+            "Eval vm_compute in indices_where (fun c => fc_raised c) cases 0.\n")
 
 
 def beh_file(items) -> str:
@@ -247,14 +435,29 @@ def viol_graph(c, o) -> Violation:
         clause, what = "no_copy", "the site returned the caller's own processor"
     elif shared:
         clause, what = "shared_mutable", f"copy references original objects {shared[:6]} ({tags})"
+    elif o.get("lost"):
+        clause, what = "copy_incomplete", (f"the copy's detector does not hold what the caller's detector holds: "
+                                           f"{o['lost'][:4]}")
     else:
         clause, what = "shared_memory", f"arrays share memory: {o['shared_mem'][:4]}"
     case = dict(c)
     return Violation(clause=clause, case=case,
                      observed=dict(shared=shared[:20], shared_classes=tags, shared_mem=o["shared_mem"][:6],
-                                   orig_changed=o["orig_changed"][:6]),
-                     expected="no mutable object / array memory shared with the caller's graph; caller's values unchanged",
+                                   orig_changed=o["orig_changed"][:6], lost=(o.get("lost") or [])[:6]),
+                     expected="no mutable object / array memory shared with the caller's graph; caller's values "
+                              "unchanged; the copy's detector equals the caller's detector value for value",
                      what=f"site {c['site']} on pipeline {c['pipe']}: {what}",
+                     sig=dict(clause=clause, site=c["site"]))
+
+
+def viol_sitefail(c, o) -> Violation:
+    clause = "caller_changed_by_failing_site" if o["changed"] else "site_outcome_vs_standalone"
+    return Violation(clause=clause, case=dict(c),
+                     observed=dict(raised=o["raised"], std_raised=o["std_raised"], changed=o["changed"][:6]),
+                     expected="the site raises exactly when the value is rejected on an independently built "
+                              "configuration, and the caller's detector / pipeline / readout hold what they held before",
+                     what=f"site {c['site']} on pipeline {c['pipe']} with params {json.dumps(c['params'])}: "
+                          f"raised={o['raised']} standalone={o['std_raised']} caller paths changed: {o['changed'][:4]}",
                      sig=dict(clause=clause, site=c["site"]))
 
 
@@ -274,6 +477,14 @@ def viol_beh(c, o, clause) -> Violation:
         cfg = c["calls"][obs.get("call", 0)]
         sig = dict(clause=clause, path="dask" if cfg["with_dask"] else "sequential_loop",
                    input=c.get("input_class", "plain"))
+        if c.get("container"):
+            sig["container"] = c["container"]
+    elif c["kind"] == "calibration":
+        bad = [dict(x=e["x"], obs=e["obs"], std=e["std"], f=e.get("f"), f_std=e.get("f_std"))
+               for e in o["evals"] + o["champions"] if e["obs"] != e["std"]]
+        obs = dict(raised=o["raised"], changed=o["changed"][:6], candidates_differing=bad[:3],
+                   n_evals=o["n_evals"], threads=o["threads"])
+        sig = dict(clause=clause, path="calibration_archipelago", input=c.get("input_class", "plain"))
     else:
         for i, e in enumerate(o["evals"]):
             bad = ((None if e["raised"] else e["obs"]) != (None if e["std_raised"] else e["std"]))
@@ -303,7 +514,7 @@ def site_modes_of(ctx: Ctx) -> dict:
 def correspondence(ctx: Ctx, cases, tag="c"):
     outs = core.run_driver(ctx, "c06", cases, workers=min(8, core.NCPU), timeout=900)
     modes = site_modes_of(ctx)
-    graphs, behs = [], []
+    graphs, behs, fails = [], [], []
     for c, o in zip(cases, outs):
         if any(k in o for k in ("crash", "driver_error", "error", "too_big")) or o.get("init_raised") \
                 or o.get("pre_run_error"):
@@ -315,9 +526,15 @@ def correspondence(ctx: Ctx, cases, tag="c"):
                     dict(err=o["site_error"], msg=o.get("site_error_msg")))[:400], c))
                 continue
             graphs.append((c, o))
+        elif c["kind"] == "sitefail":
+            fails.append((c, o))
         else:
             behs.append((c, o))
     files, index = {}, {}
+    if fails:
+        name = f"{tag}_sitefail"
+        files[name] = fail_file([emit_fail_case(o) for c, o in fails])
+        index[name] = ("fail", fails)
     per = 40
     for k in range(0, len(graphs), per):
         name = f"{tag}_graph_{k // per:03d}"
@@ -328,7 +545,8 @@ def correspondence(ctx: Ctx, cases, tag="c"):
         name = f"{tag}_beh_{k // per_b:03d}"
         items = []
         for c, o in behs[k:k + per_b]:
-            b, a, r, skipped = beh_of_observe(o) if c["kind"] == "observe" else beh_of_fitness(o)
+            b, a, r, skipped = (beh_of_observe(o) if c["kind"] == "observe" else
+                                beh_of_calibration(o) if c["kind"] == "calibration" else beh_of_fitness(o))
             ctx.count("runs_skipped_inexact_or_unextractable", skipped)
             items.append(emit_beh_case(b, a, r))
         files[name] = beh_file(items)
@@ -346,6 +564,10 @@ def correspondence(ctx: Ctx, cases, tag="c"):
             mism += [chunk[i] for i in a]
             for i in b:
                 ctx.violations.append(viol_graph(*chunk[i]))
+        elif kind == "fail":
+            for i in a:
+                ctx.violations.append(viol_sitefail(*chunk[i]))
+            ctx.count("failing_sites_that_raised", len(b))
         else:
             for i in a:
                 ctx.violations.append(viol_beh(*chunk[i], "caller_changed"))
@@ -362,27 +584,61 @@ def correspondence(ctx: Ctx, cases, tag="c"):
         ctx.count("graph_nodes", o["n0"])
         ctx.dist("graph_site", c["site"])
         ctx.dist("graph_size", "<30" if o["n0"] < 30 else "30..45" if o["n0"] <= 45 else ">45")
+    for c, o in fails:
+        ctx.count("evaluations")
+        ctx.dist("failing_site", f"{c['site']}/{'raised' if o['raised'] else 'accepted'}")
+    for c, o in graphs + fails + behs:
+        sp = c["spec"]
+        ctx.dist("caller_history", "+".join(
+            [t for t, on in (("real_memory", sp.get("real_memory")), ("persistence", sp.get("persistence") is not None),
+                             ("pre_exposure", sp.get("pre_exposure")), ("adhoc_memory", sp.get("memory") is not None))
+             if on]) or "fresh")
     for c, o in behs:
         if c["kind"] == "observe":
+            if c.get("container"):
+                ctx.dist("container_default", f"{c['container']}/{c.get('input_class')}")
             for cfg, call in zip(c["calls"], o["calls"]):
                 ctx.count("evaluations", len(call["runs"]))
                 ctx.count("observation_calls")
-                ctx.dist("call", f"{cfg['mode']}/{'dask' if cfg['with_dask'] else 'loop'}"
-                                 f"{'/raised' if call['raised'] else ''}")
+                ctx.dist("call", f"{cfg['mode']}/{('dask-' + (cfg.get('scheduler') or 'synchronous')) if cfg['with_dask'] else 'loop'}"
+                                 f"{'/raised' if call['raised'] else ''}"
+                                 f"{'/rejected_value' if cfg.get('reject') else ''}")
+        elif c["kind"] == "calibration":
+            ctx.count("evaluations", len(o["evals"]) + len(o["champions"]))
+            ctx.count("calibration_candidates_evaluated_by_islands", o.get("n_evals", 0))
+            ctx.dist("call", f"calibration/{c['islands']}islands/{o.get('threads', 0) > 1 and 'concurrent' or 'serial'}"
+                             f"{'/raised' if o['raised'] else ''}")
         else:
             ctx.count("evaluations", len(o["evals"]))
-            ctx.dist("call", "fitness")
+            ctx.dist("call", f"fitness/{o.get('processors', 1)}proc" + ("/list_variable" if any(
+                v.get("n") for v in c["variables"]) else ""))
             ctx.dist("fitness_raised", sum(1 for e in o["evals"] if e["raised"]))
         ctx.dist("pipeline", c["pipe"])
-    return graphs, behs, mism
+    return graphs, behs + fails, mism
+
+
+def corpus_cases():
+    """Minimised past failures (findings since repaired, classes of the seeded changes that were once missed)."""
+    d = core.VERIF / "harness" / "corpus" / "C06"
+    out = []
+    for f in sorted(d.glob("*.json")):
+        c = json.loads(f.read_text())
+        c["corpus"] = f.stem
+        out.append(c)
+    return out
 
 
 def gen_cases(ctx: Ctx, ng, no, nf, salt="cases"):
     r = ctx.rng(salt)
-    cases = [gen_graph(r, k) for k in range(ng)]
+    cases = corpus_cases() if salt == "cases" else []
+    cases += [gen_graph(r, k) for k in range(ng)]
+    cases += [gen_sitefail(r, k) for k in range(max(8, ng // 4))]
     cases += [gen_observe(r, k) for k in range(no)]
     cases += [gen_observe_array(r, k) for k in range(max(3, no // 8))]
+    cases += [gen_observe_container(r, k) for k in range(max(20, no // 2))]
     cases += [gen_fitness(r, k) for k in range(nf)]
+    cases += [gen_fitness_multi(r, k) for k in range(max(6, nf // 2))]
+    cases += [gen_calibration(r, k) for k in range(max(3, nf // 5))]
     return cases
 
 
@@ -391,8 +647,12 @@ def nontrivial(c) -> bool:
     own argument AND (graph) the site sets >= 1 parameter or (behaviour) >= 2 runs are made."""
     if c["kind"] == "graph":
         return bool(c["params"]) or c["site"] in ("deepcopy", "fitting_init")
+    if c["kind"] == "sitefail":
+        return True
     if c["kind"] == "observe":
         return sum(len(q["values"]) for call in c["calls"] for q in call["parameters"]) >= 2
+    if c["kind"] == "calibration":
+        return True
     return len(c["vectors"]) >= 2
 
 
@@ -407,6 +667,11 @@ def run(ctx: Ctx):
         "immutable values are payload, not heap objects; the readout handed to run_pipeline is only read "
         "(np.array(times) copies) - checked by the snapshot of the caller's readout",
         "sequential mode under dask with >= 2 parameters is not generated here (finding F12 belongs to C05/C07)",
+        "the buckets, the scene and the readout clock of a copy are not compared with the caller's (exposure.run_pipeline "
+        "resets them before the first step of every run); caches (_numbytes), the running model's name and debug data "
+        "(_intermediate) are not contents",
+        "calibration candidates are arbitrary binary64 values: fitness / champion frames are compared with the standalone "
+        "oracle within 1e-9 relative (oracle side only); everything else uses dyadic inputs and exact comparison",
     ]
     gen = {}
     try:
@@ -422,22 +687,36 @@ def run(ctx: Ctx):
     graphs, behs, mism = correspondence(ctx, cases)
     distinct = {json.dumps(c, sort_keys=True) for c, _ in graphs + behs if nontrivial(c)}
     ctx.cov["distinct_nontrivial"] = len(distinct)
-    ctx.cov["rule"] = ("every generated pipeline contains verif_probes.stateful (memory on the detector) and most "
-                       "contain verif_probes.mutates_args (appends to its own list argument); graph cases: one per "
-                       "(copy site, spec, parameter set); behaviour cases: 1-4 successive observation calls (product / "
-                       "sequential, loop / dask-synchronous, reversed and thinned value orders, a failing run in the "
-                       "middle) or 4-6 fitness() calls with a failing candidate in the middle and the first candidate "
-                       "repeated last; non-trivial = sets >= 1 parameter (graph) / makes >= 2 runs (behaviour)")
+    ctx.cov["rule"] = ("every generated pipeline contains a model that keeps memory on the detector (ad-hoc attribute, "
+                       "the detector's own _memory dict, trapped charge of a persistence object) and most contain a model "
+                       "that modifies its own argument in place (list append, nested lists / tuple of lists / dict / "
+                       "ndarray element-wise); the caller's objects carry a history in most cases (0-2 earlier exposures); "
+                       "graph cases: one per (copy site, spec, parameter set); sitefail cases: a copy site asked to apply a "
+                       "rejected value; behaviour cases: 1-4 successive observation calls (product / sequential, loop / "
+                       "dask synchronous / dask threads, reversed and thinned value orders, a raising model or a rejected "
+                       "value at any position, unknown keys), 4-8 fitness() calls (failing or rejected candidate in the "
+                       "middle, candidates repeated in a row and at the end, 1-3 processors per candidate, list-valued "
+                       "variables), real calibrations on 1-3 islands; non-trivial = sets >= 1 parameter (graph) / makes "
+                       ">= 2 runs (behaviour)")
     ctx.cov["traces_validated_against_impl"] = len(graphs) + len(behs)
     ctx.cov["disagreements_checked"] = len(mism)
     for c, o in graphs[:2]:
         ctx.sample(dict(kind="graph", site=c["site"], pipe=c["pipe"], params=c["params"], n0=o["n0"],
                         copy_nodes=len(o["copy"]), shared_mem=o["shared_mem"], types=o.get("types", [])[:12]))
+    for c, o in [x for x in behs if x[0]["kind"] == "sitefail"][:1]:
+        ctx.sample(dict(kind="sitefail", site=c["site"], pipe=c["pipe"], params=c["params"], raised=o["raised"],
+                        standalone_raised=o["std_raised"], caller_paths_changed=o["changed"]))
+    behs = [x for x in behs if x[0]["kind"] != "sitefail"]
     for c, o in behs[:2] + behs[-1:]:
         if c["kind"] == "observe":
             ctx.sample(dict(kind="observe", pipe=c["pipe"], calls=c["calls"],
                             first_runs=[dict(params=r["params"], obs=(r["obs"] or [])[:3], std=(r["std"] or [])[:3])
                                         for r in o["calls"][0]["runs"][:2]]))
+        elif c["kind"] == "calibration":
+            ctx.sample(dict(kind="calibration", pipe=c["pipe"], islands=c["islands"], variables=c["variables"],
+                            input_arguments=c["input_arguments"], candidates_evaluated=o.get("n_evals"),
+                            threads=o.get("threads"), judged=len(o["evals"]), champions=len(o["champions"]),
+                            first=[dict(x=e["x"], f=e.get("f"), f_standalone=e.get("f_std")) for e in o["evals"][:2]]))
         else:
             ctx.sample(dict(kind="fitness", pipe=c["pipe"], vectors=c["vectors"],
                             evals=[dict(obs=e["obs"], std=e["std"], raised=e["raised"]) for e in o["evals"]]))
@@ -491,20 +770,32 @@ def replay(ctx: Ctx, rp: dict) -> int:
 META = dict(
     level_text=(
         "Coq theorems over a store model (heap = list of objects, copy = relocation of the reachable sub-graph driven "
-        "by the copy policy regenerated from Processor.__deepcopy__, ModelGroup.__deepcopy__ and nine copy/run sites on "
+        "by the copy policy regenerated from Processor.__deepcopy__, ModelGroup.__deepcopy__ and the copy/run sites on "
         "every run): the copy is a fresh isomorphic block; for every run function that changes only what it reaches "
-        "and for EVERY sequence of runs the caller's whole heap is unchanged; a run's result does not depend on the runs "
-        "before it; with one aliasing field or an in-place site the frame statement is refuted on a concrete witness. "
+        "and for EVERY sequence of runs the caller's whole heap is unchanged; the same on the EXCEPTIONAL path - every "
+        "history of calls whose runs may be rejected by a setter or raise in a model, aborted at the first failure (loop) "
+        "or not (dask), followed by further calls - and the outcome of a run (result or failure) does not depend on that "
+        "history; parameter values that are references to the caller's objects keep the frame because the sites "
+        "deep-copy the value (regenerated flag; statement false without the copy); a site that writes to the caller "
+        "keeps the frame iff it restores in a finally clause (both directions proved on the model); with one aliasing "
+        "field or an in-place site the frame statement is refuted on a concrete witness. "
         "That pyxel's real object graphs and CPython's deepcopy behave like the model is established by correspondence "
         "(testing): Coq recomputes the copied block for every generated real processor graph and compares it with what "
         "deepcopy / replace / create_new_processor / update_processor / build_processors / fitting init produced, and "
-        "judges value snapshots of the caller's objects and every observation / dask / fitness run against an "
-        "independently built standalone exposure."),
+        "judges value snapshots of the caller's objects (which carry a history: detector memory, trapped charge, bucket "
+        "contents of earlier exposures) and every observation / dask (synchronous and threaded) / fitness run, every "
+        "candidate evaluated by a real multi-island calibration and every copy site asked to apply a rejected value "
+        "against an independently built standalone exposure."),
     level_note=(
-        "Trusted: Coq kernel + vm_compute; translator/c06.py; the driver's canonical numbering and snapshots; Section "
-        "hypotheses on runs (frame, address independence); global state outside the store (RNG, caches) is C04/C20; "
-        "schedulers other than synchronous are C07. Abstracted: the memo dropped by ModelGroup.__deepcopy__, values of "
-        "immutable fields, numpy views (memory sharing is measured by the harness, not modelled)."),
-    technique="Coq proof over a heap/copy-policy model + regenerated copy-site table + in-Coq graph/snapshot correspondence",
+        "Trusted: Coq kernel + vm_compute; translator/c06.py (field modes, copy-before-set shape, which processor is run, "
+        "writes to the caller's objects by taint analysis, value deep-copied before set, no other copy/pickle hook); "
+        "the driver's canonical numbering and snapshots; Section hypotheses on runs (frame, address independence, "
+        "Processor.set stores payload or new objects); global state outside the store (RNG, caches) is C04/C20; "
+        "result equality under parallel schedulers is C07 (here: isolation of the caller and of the runs under the "
+        "threaded scheduler). Abstracted: the memo dropped by ModelGroup.__deepcopy__, values of immutable fields, "
+        "numpy views (memory sharing is measured by the harness, not modelled). Calibration candidates are arbitrary "
+        "binary64 values: their fitness is compared with the standalone oracle within 1e-9 relative (oracle side only)."),
+    technique="Coq proof over a heap/copy-policy model with failing runs + regenerated copy-site tables (mode, effect, "
+              "value copy) + in-Coq graph/snapshot correspondence",
     design_ref="DESIGN.md section 6, C06",
 )
